@@ -124,6 +124,29 @@ func synth(t reflect.Type, where string) reflect.Value {
 	return reflect.Zero(t)
 }
 
+// poolProbe opens two events, two dicts and two arrays at the same time and finalises them: if a filtered call
+// left the pools in a bad state (the same object pooled twice, an object still in use put back) the two
+// events are not the ones their chains build.
+type probeW struct{ lines []string }
+
+func (p *probeW) Write(b []byte) (int, error) { p.lines = append(p.lines, string(b)); return len(b), nil }
+
+const probeWant = `{"a":"1","d":{"x":"1"},"r":[1],"message":"one"}` + "\n" + `{"b":"2","d":{"y":"2"},"r":[2],"message":"two"}` + "\n"
+
+func poolProbe() string {
+	pw := &probeW{}
+	lg := zerolog.New(pw)
+	e1 := lg.Log().Str("a", "1")
+	e2 := lg.Log().Str("b", "2")
+	d1 := zerolog.Dict().Str("x", "1")
+	d2 := zerolog.Dict().Str("y", "2")
+	a1 := zerolog.Arr().Int(1)
+	a2 := zerolog.Arr().Int(2)
+	e1.Dict("d", d1).Array("r", a1).Msg("one")
+	e2.Dict("d", d2).Array("r", a2).Msg("two")
+	return strings.Join(pw.lines, "")
+}
+
 func callOn(recv reflect.Value, m reflect.Method) (out []reflect.Value, panicked string) {
 	mt := m.Type
 	var args []reflect.Value
@@ -454,6 +477,9 @@ func main() {
 					case out[0].Type() == tCtx && (out[0].IsNil() || out[0].Interface().(context.Context) != context.Background()):
 						r.Violation("", "inert-result/"+desc, fmt.Sprintf("%s event: %s() did not return the background context", fname, desc), nil)
 					}
+				}
+				if got := poolProbe(); got != probeWant {
+					r.Violation("", "inert-pools/"+desc, fmt.Sprintf("%s event: after %s two events / dicts / arrays opened at the same time are no longer independent: got %q, want %q", fname, desc, got, probeWant), nil)
 				}
 				if pan != "" || len(invoked) > 0 || w.n > 0 || hk2.calls > 0 {
 					r.Violation("", "inert/"+fname+"/"+desc, fmt.Sprintf("%s event: %s: panic=%q invoked=%v writes=%d hooks=%d", fname, desc, pan, invoked, w.n, hk2.calls), nil)
